@@ -11,8 +11,18 @@
    computes it for clear != 0.
 
    SCOPE DECISIONS
-   * one mutex, one cv; every waiter is a native nsync_mu waiter (cv_mu != NULL: no generic-lock callers, no
-     nsync_wait_n records), one waiter struct and one semaphore per thread (MuModel's [waiting], [sem], [wtype]).
+   * one mutex, one cv; the cv waiters are native nsync_mu waiters (cv_mu != NULL: no generic-lock callers) and
+     NSYNC_WAIT_N RECORDS: [XWaitN om] is nsync_wait_n (mu, lock, unlock, no-deadline-or-future-deadline, 1, {cv}) with
+     mu = NULL (om = None) or with the mutex held in mode m and thin lock / unlock callbacks (om = Some m).  Its record
+     (flags = 0: not NSYNC_WAITER_FLAG_MUCV) sits on the cv queue like a waiter, is never transferred to the mutex queue
+     (wake_waiters: `p_w == NULL`), counts as a non-reader in nsync_cv_signal / broadcast's all_readers, and as first
+     element of a to_wake_list makes pmu = NULL (wake_waiters then never looks at the mutex).
+     One waiter struct and one semaphore per thread (MuModel's [waiting], [sem], [wtype]).  The record of a wait_n call
+     is [xn_rec (pc of its thread)]: a thread has at most one record on the cv (native or not), and it is a wait_n record
+     exactly while the thread is between cv_enqueue and the end of cv_dequeue.  ONE CELL for the two waiting flags of a
+     thread (w->nw.waiting of its waiter struct and nw[0].waiting of its wait_n call): MuModel's [waiting]; the two are
+     never live together (a thread inside nsync_wait_n is neither on the mutex queue nor a native cv waiter:
+     Properties_C04x.C04x_record_kinds), and the replay compares every load and store of either cell.
    * The cv spinlock is modelled as ATOMIC SECTIONS, one step per critical section of cv.c, linearised at the store
      that releases the cv spinlock: [XwEnq] (enqueue on the cv), [XwConfirm] (timeout / cancellation: remove itself
      from the cv queue iff still there, then waiting = 0), [XkSelect] (signal / broadcast: unlink the chosen waiters).
@@ -31,9 +41,16 @@
    * wake_waiters' release of the mutex spinlock: clear_on_release (MU_SPINLOCK, plus MU_WAITING when pmu->waiters is
      empty after the transfer loop -- a plain access under the spinlock, merged like the loop into the step of the
      acquiring CAS) is the local [k_clr], computed in the step of site wake_waiters.2 from the model's queue.
-   * Ghost: [held] (MuModel), [x_rets] (log of the returns of XWait: entry mode, what is held at return), w_m,
+   * Ghost: [held] (MuModel), [x_rets] (log of the returns of XWait and of XWaitN (Some m): entry mode, what is held at
+     return), w_m,
      [w_out] (the result "outcome != 0" of the wait: set, as in cv.c, only in the branch of the confirmation section
      that finds the waiter still on the cv queue).
+   * nsync_wait_n: wait.c:54 (store waiting = 0) is [XnStore0]; cv_enqueue is the section [XnEnq] (enqueue + store
+     waiting = 1, linearised at the store that releases the cv spinlock); the do-loop is [XnReady] (cv_ready_time's
+     acquire load) / [XnSem] (nsync_mu_semaphore_p_with_deadline: [CGo] = P, [CAlt] = the deadline passed); cv_dequeue
+     is the section [XnDeq] (still queued: unlink + store waiting = 0) followed, when a waker had taken the record, by
+     the spin [XnSpin] on waiting; the callbacks are MuModel steps ([XnUnlock], [XnReacq]).  The deadline is in the
+     future at the call (an expired one makes nsync_wait_n return at once without touching anything).
    No proofs in this file. *)
 From NsyncBase Require Import CSem.
 From NsyncGen Require Import Consts Sites.
@@ -42,7 +59,7 @@ From Coq Require Import List ZArith Bool.
 Import ListNotations.
 Local Open Scope Z_scope.
 
-Inductive xop := XOp (o : op) | XWait (m : mode) | XSignal | XBroadcast.
+Inductive xop := XOp (o : op) | XWait (m : mode) | XSignal | XBroadcast | XWaitN (om : option mode).
 
 (* locals of nsync_cv_wait_with_deadline_generic *)
 Record xwl := mk_xwl {
@@ -78,7 +95,20 @@ Inductive xpc :=
 | XkSelect (bc : bool)                    (* section: unlink the waiters to wake *)
 (* wake_waiters *)
 | XvLoad1 (k : kl) | XvCas1 (k : kl) (old : Z) | XvLoad3 (k : kl) | XvCas2 (k : kl) (old : Z) | XvLoad5 (k : kl)
-| XvStore (k : kl) | XvV (k : kl) (p : nat).
+| XvStore (k : kl) | XvV (k : kl) (p : nat)
+(* nsync_wait_n (mu, lock, unlock, deadline, 1, {cv}) *)
+| XnStore0 (om : option mode)             (* wait.c: ATM_STORE (&nw[0].waiting, 0) *)
+| XnEnq (om : option mode)                (* cv_enqueue: section: pcv->waiters += nw; ATM_STORE (&nw->waiting, 1) *)
+| XnUnlock (m : mode)                     (* unlock (mu): MuModel steps *)
+| XnReady (om : option mode)              (* cv_ready_time: ATM_LOAD_ACQ (&nw->waiting) *)
+| XnSem (om : option mode)                (* nsync_mu_semaphore_p_with_deadline (&w->sem, min_ntime) *)
+| XnDeq (om : option mode)                (* cv_dequeue: section: still queued? unlink, ATM_STORE (&nw->waiting, 0) *)
+| XnSpin (om : option mode)               (* cv_dequeue: while (ATM_LOAD_ACQ (&nw->waiting) != 0) spin delay *)
+| XnReacq (m : mode).                     (* lock (mu): MuModel steps *)
+
+(* the thread's record on the cv (queue or a to_wake_list) is the record of an nsync_wait_n call: flags == 0 *)
+Definition xn_rec (xp : xpc) : bool :=
+  match xp with XnUnlock _ | XnReady _ | XnSem _ | XnDeq _ | XnSpin _ => true | _ => false end.
 
 Record xtstate := mk_xt { x_pc : xpc; x_ops : list xop; x_rets : list (mode * option mode) (* ghost, newest first *) }.
 
@@ -92,7 +122,8 @@ Inductive choice := CGo | CAlt.
 Inductive actor := Thr (t : nat) (c : choice) | EnvV (p : nat).
 
 (* observable events.  Sites of cv.c: 1000 + ordinal in wake_waiters, 1100 + ordinal in
-   nsync_cv_wait_with_deadline_generic, 1200 + .. nsync_cv_signal, 1300 + .. nsync_cv_broadcast (Gen/Sites.v) *)
+   nsync_cv_wait_with_deadline_generic, 1200 + .. nsync_cv_signal, 1300 + .. nsync_cv_broadcast, 1400 + .. cv_ready_time,
+   1500 + .. cv_enqueue, 1600 + .. cv_dequeue; wait.c: 1700 + .. nsync_wait_n (Gen/Sites.v) *)
 Inductive xev :=
 | XMu (e : ev)                 (* a MuModel event: a step of mu.c, or a step of cv.c on the mutex word / waiting / semaphore *)
 | XSec (site : Z) (n : Z)      (* an atomic section of the cv spinlock / the load of the cv word; n: what it did *)
@@ -133,44 +164,46 @@ Definition push_op (w : world) (t : nat) (o : op) : world :=
   let s := get w t in set_t w t (mk_t (t_pc s) [o] (held s) (sleeps s) (last_try s)).
 
 (* ---------- selection under the cv spinlock (cv.c: nsync_cv_signal / nsync_cv_broadcast) ---------- *)
-Definition is_rdr (ty : nat -> mode) (p : nat) : bool := mode_eqb (ty p) R.
-(* first waiter a reader: all readers and the first non-reader: (woken, kept, woke_writer) *)
-Fixpoint sig_scan (ty : nat -> mode) (q : list nat) (wokew : bool) : list nat * list nat * bool :=
+(* rd p: `(p_nw->flags & NSYNC_WAITER_FLAG_MUCV) != 0 && DLL_WAITER (p)->l_type == nsync_reader_type_` *)
+(* first waiter a reader: all readers and the first non-reader (a writer or an nsync_wait_n record): (woken, kept, woke_writer) *)
+Fixpoint sig_scan (rd : nat -> bool) (q : list nat) (wokew : bool) : list nat * list nat * bool :=
   match q with
   | [] => ([], [], wokew)
   | p :: rest =>
-      if is_rdr ty p then let '(wk, kp, ww) := sig_scan ty rest wokew in (p :: wk, kp, ww)
-      else if negb wokew then let '(wk, kp, ww) := sig_scan ty rest true in (p :: wk, kp, ww)
-      else let '(wk, kp, ww) := sig_scan ty rest wokew in (wk, p :: kp, ww)
+      if rd p then let '(wk, kp, ww) := sig_scan rd rest wokew in (p :: wk, kp, ww)
+      else if negb wokew then let '(wk, kp, ww) := sig_scan rd rest true in (p :: wk, kp, ww)
+      else let '(wk, kp, ww) := sig_scan rd rest wokew in (wk, p :: kp, ww)
   end.
 (* (to_wake_list, remaining queue, all_readers) *)
-Definition sel_signal (ty : nat -> mode) (q : list nat) : list nat * list nat * bool :=
+Definition sel_signal (rd : nat -> bool) (q : list nat) : list nat * list nat * bool :=
   match q with
   | [] => ([], [], false)
   | first :: rest =>
-      if is_rdr ty first then let '(wk, kp, ww) := sig_scan ty rest false in (first :: wk, kp, negb ww)
+      if rd first then let '(wk, kp, ww) := sig_scan rd rest false in (first :: wk, kp, negb ww)
       else ([first], rest, false)
   end.
-Definition sel_broadcast (ty : nat -> mode) (q : list nat) : list nat * list nat * bool :=
-  (q, [], forallb (is_rdr ty) q).
+Definition sel_broadcast (rd : nat -> bool) (q : list nat) : list nat * list nat * bool :=
+  (q, [], forallb rd q).
 
 (* ---------- wake_waiters: transfer vs wake, under the mutex spinlock ---------- *)
 (* the loop over the waiters after the first: (moved to mu->waiters, still to wake, transferred_a_writer, woke_areader) *)
-Fixpoint xfer_rest (ty : nat -> mode) (fca fw : bool) (q : list nat) (taw war : bool) : list nat * list nat * bool * bool :=
+(* nn p: `p_w == NULL` (the record is not embedded in a waiter struct: an nsync_wait_n record): it stays on the list *)
+Fixpoint xfer_rest (nn : nat -> bool) (ty : nat -> mode) (fca fw : bool) (q : list nat) (taw war : bool) : list nat * list nat * bool * bool :=
   match q with
   | [] => ([], [], taw, war)
   | p :: rest =>
       let piw := mode_eqb (ty p) W in
-      if fca || fw || piw then let '(m, s, a, b) := xfer_rest ty fca fw rest (taw || piw) war in (p :: m, s, a, b)
-      else let '(m, s, a, b) := xfer_rest ty fca fw rest taw (war || negb piw) in (m, p :: s, a, b)
+      if nn p then let '(m, s, a, b) := xfer_rest nn ty fca fw rest taw war in (m, p :: s, a, b)
+      else if fca || fw || piw then let '(m, s, a, b) := xfer_rest nn ty fca fw rest (taw || piw) war in (p :: m, s, a, b)
+      else let '(m, s, a, b) := xfer_rest nn ty fca fw rest taw (war || negb piw) in (m, p :: s, a, b)
   end.
-(* (moved, stay, set_on_release) *)
-Definition xfer (ty : nat -> mode) (fca : bool) (wake : list nat) : list nat * list nat * Z :=
+(* (moved, stay, set_on_release); the first element is a native waiter (pmu != NULL) *)
+Definition xfer (nn : nat -> bool) (ty : nat -> mode) (fca : bool) (wake : list nat) : list nat * list nat * Z :=
   match wake with
   | [] => ([], [], 0)
   | first :: rest =>
       let fw := mode_eqb (ty first) W in
-      let '(m, s, a, b) := xfer_rest ty fca fw rest (if fca then fw else false) (if fca then false else negb fw) in
+      let '(m, s, a, b) := xfer_rest nn ty fca fw rest (if fca then fw else false) (if fca then false else negb fw) in
       (if fca then first :: m else m, if fca then s else first :: s,
        if a && negb b then MU_WRITER_WAITING else 0)
   end.
@@ -189,6 +222,10 @@ Definition ls_desig (m : mode) : lsl :=
 
 Definition wake_loop (k : kl) : xpc := match k_wake k with [] => XIdle | _ => XvStore k end.
 
+(* the kind of the record thread p has on the cv *)
+Definition nrec (xw : xworld) (p : nat) : bool := xn_rec (x_pc (xget xw p)).
+Definition xrd (xw : xworld) (p : nat) : bool := negb (nrec xw p) && mode_eqb (wtype (mw xw) p) R.
+
 (* ---------- the step function ---------- *)
 Definition xbegin (xw : xworld) (t : nat) : xworld :=
   let xs := xget xw t in
@@ -204,6 +241,11 @@ Definition xbegin (xw : xworld) (t : nat) : xworld :=
                            | None => XCrash 5 end)
         | XSignal => set_xpc xw1 t (XkLoad false)
         | XBroadcast => set_xpc xw1 t (XkLoad true)
+        | XWaitN None => set_xpc xw1 t (XnStore0 None)
+        | XWaitN (Some m) =>
+            set_xpc xw1 t (match held (get (mw xw) t) with
+                           | Some m' => if mode_eqb m m' then XnStore0 (Some m) else XCrash 8
+                           | None => XCrash 8 end)
         end
       else xw
   | _, _ => xw
@@ -283,14 +325,18 @@ Definition xstep_thr (xw0 : xworld) (t : nat) (c : choice) : xworld * xev :=
                 end
       end
   | XkSelect bc =>
-      let '(wk, kp, allr) := if bc then sel_broadcast (wtype w) (cvq xw) else sel_signal (wtype w) (cvq xw) in
+      let '(wk, kp, allr) := if bc then sel_broadcast (xrd xw) (cvq xw) else sel_signal (xrd xw) (cvq xw) in
       let site := if bc then 1304 else 1206 in
       let xw1 := set_cvq xw kp in
       match wk with
       | [] => (set_xpc xw1 t XIdle, XSec site 0)
-      | _ => (set_xpc xw1 t (XvLoad1 (mk_kl wk allr 0 0)), XSec site (Z.of_nat (length wk)))
+      | first :: _ =>
+          (* wake_waiters: pmu = first_w->cv_mu if the first record is a native waiter's (NSYNC_WAITER_FLAG_MUCV), else NULL:
+             with pmu == NULL it goes straight to the loop that wakes *)
+          let k := mk_kl wk allr 0 0 in
+          (set_xpc xw1 t (if nrec xw first then XvStore k else XvLoad1 k), XSec site (Z.of_nat (length wk)))
       end
-  (* --- wake_waiters (pmu = first_w->cv_mu != NULL: every waiter is a native one) --- *)
+  (* --- wake_waiters, pmu != NULL (the first element of to_wake_list is a native waiter) --- *)
   | XvLoad1 k =>
       let old := word w in
       if xfer_wanted (wtype w) old k then (set_xpc xw t (XvCas1 k old), XMu (EvLoad 1001 old))
@@ -299,7 +345,7 @@ Definition xstep_thr (xw0 : xworld) (t : nat) (c : choice) : xworld * xev :=
       let new := wake_waiters_cas1_new old in
       let '(w1, ok) := cas w (wake_waiters_cas1_old old) new in
       if ok then
-        let '(moved, stay, set_on) := xfer (wtype w) (first_cant_acquire (wtype w) old (k_wake k)) (k_wake k) in
+        let '(moved, stay, set_on) := xfer (nrec xw) (wtype w) (first_cant_acquire (wtype w) old (k_wake k)) (k_wake k) in
         (* pmu->waiters = make_last (pmu->waiters, p); p_w->cv_mu = NULL; waiting stays 1 *)
         let q' := queue w1 ++ moved in
         (* clear_on_release = MU_SPINLOCK; if (nsync_dll_is_empty_ (pmu->waiters)) clear_on_release |= MU_WAITING *)
@@ -323,6 +369,55 @@ Definition xstep_thr (xw0 : xworld) (t : nat) (c : choice) : xworld * xev :=
            XMu (EvStoreWaiting p v))
       end
   | XvV k p => (set_xpc (set_mw xw (set_sem w p (sem w p + 1))) t (wake_loop k), XMu (EvV p))
+  (* --- nsync_wait_n (mu, lock, unlock, deadline, 1, {cv}) --- *)
+  | XnStore0 om =>
+      let v := nsync_wait_n_store1_new in
+      (set_xpc (set_mw xw (set_waiting w t (negb (v =? 0)))) t (XnEnq om), XMu (EvStoreWaiting t v))
+  | XnEnq om =>
+      (* cv_enqueue, under the cv spinlock: pcv->waiters += nw; ATM_STORE (&nw->waiting, 1); then, if (mu != NULL) unlock (mu) *)
+      let v := cv_enqueue_store1_new in
+      let w1 := set_waiting w t (negb (v =? 0)) in
+      match om with
+      | Some m => (set_xpc (set_cvq (set_mw xw (set_pc w1 t (UlFast m))) (cvq xw ++ [t])) t (XnUnlock m), XSec 1502 1)
+      | None => (set_xpc (set_cvq (set_mw xw w1) (cvq xw ++ [t])) t (XnReady None), XSec 1502 1)
+      end
+  | XnUnlock m =>
+      let '(xw1, e) := mu_step xw t in
+      if mu_pc_idle (mw xw1) t then (set_xpc xw1 t (XnReady (Some m)), XMu e) else (xw1, XMu e)
+  | XnReady om =>
+      (* cv_ready_time: waiting != 0 ? no deadline : zero; zero ends the do-loop *)
+      if cv_ready_time_load1_guard (b2z (waiting w t)) then (set_xpc xw t (XnSem om), XMu (EvLoad 1401 1))
+      else (set_xpc xw t (XnDeq om), XMu (EvLoad 1401 0))
+  | XnSem om =>
+      match c with
+      | CGo =>
+          if 0 <? sem w t then (set_xpc (set_mw xw (set_sem w t (sem w t - 1))) t (XnReady om), XMu EvP)
+          else (xw, XMu EvBlocked)
+      | CAlt => (set_xpc xw t (XnDeq om), XTimeout)
+      end
+  | XnDeq om =>
+      (* cv_dequeue, under the cv spinlock: if (ATM_LOAD_ACQ (&nw->waiting) != 0 && nw is on pcv->waiters)
+         { unlink; ATM_STORE (&nw->waiting, 0); was_queued = 1 }; spinlock released; if (!was_queued) spin *)
+      if waiting w t && cv_dequeue_store1_guard (b2z (mem_id t (cvq xw))) then
+        let v := cv_dequeue_store1_new in
+        let w1 := set_waiting w t (negb (v =? 0)) in
+        match om with
+        | Some m => (set_xpc (set_cvq (set_mw xw (set_pc w1 t (LkFast m))) (remove_id t (cvq xw))) t (XnReacq m), XSec 1603 1)
+        | None => (set_xpc (set_cvq (set_mw xw w1) (remove_id t (cvq xw))) t XIdle, XSec 1603 1)
+        end
+      else (set_xpc xw t (XnSpin om), XSec 1603 0)
+  | XnSpin om =>
+      if waiting w t then (xw, XMu (EvLoad 1604 1))
+      else
+        match om with
+        | Some m => (set_xpc (set_mw xw (set_pc w t (LkFast m))) t (XnReacq m), XMu (EvLoad 1604 0))
+        | None => (set_xpc xw t XIdle, XMu (EvLoad 1604 0))
+        end
+  | XnReacq m =>
+      let '(xw1, e) := mu_step xw t in
+      if mu_pc_idle (mw xw1) t
+      then (set_xpc (add_xret xw1 t (m, held (get (mw xw1) t))) t XIdle, XMu e)
+      else (xw1, XMu e)
   end.
 
 Definition xstep (xw : xworld) (a : actor) : xworld * xev :=
